@@ -76,6 +76,29 @@ Definition decode_observation (bs : list Z) : res raw_observation :=
       end
   end.
 
+(* ---- Encode: proto.Marshal of LLOObservationProto. Fields are written in field-number order; the two proto map
+   fields (5, 6) and the removal ids (maps.Keys) come in an unspecified order, which is a parameter here.
+   A map entry always carries its key (tag 1) and its value message (tag 2), also when the key is 0. ---- *)
+Definition enc_entry (k : Z) (body : list Z) : list Z := (tag 1 0 ++ varint k) ++ f_msg 2 body.
+Definition encode_observation (rms : list Z) (ups : list (Z * chandef)) (vals : list (Z * sval)) (ob : raw_observation) : list Z :=
+  f_bytes 1 (ro_att ob) ++ f_varint 2 (if ro_retire ob then 1 else 0) ++ f_varint 3 (ro_ts ob) ++
+  f_bytes 4 (flat_map varint rms) ++
+  flat_map (fun e => f_msg 5 (enc_entry (fst e) (enc_def (snd e)))) ups ++
+  flat_map (fun e => f_msg 6 (enc_entry (fst e) (enc_lsv (snd e)))) vals ++
+  f_varint 7 (ro_ts ob).
+(* the orders a given encoding used (for the correspondence check: the model must reproduce Go's bytes exactly
+   once told in which order Go happened to iterate its maps) *)
+Definition entry_keys (field : Z) (fs : list rawfield) : list Z :=
+  omap (fun b => option_map fst (map_entry b)) (all_bytes field fs).
+Definition encode_observation_like (bs : list Z) (ob : raw_observation) : list Z :=
+  match parse_fields bs with
+  | Some fs =>
+      encode_observation (default [] (repeated_u32 4 fs))
+        (omap (fun k => pair k <$> ro_updates ob !! k) (entry_keys 5 fs))
+        (omap (fun k => pair k <$> ro_values ob !! k) (entry_keys 6 fs)) ob
+  | None => []
+  end.
+
 (* ValidateObservation on the decoded observation (seqNr > 1). codec_ok = Verify of the report codecs. *)
 Definition validate_observation (codec_ok : chandef -> bool) (has_pred : bool) (ob : raw_observation) : bool :=
   negb (negb has_pred && negb (bool_decide (ro_att ob = []))) &&
